@@ -51,21 +51,25 @@ def insertSorted (s : Nat) : List Nat → List Nat
 
 def sortStrings (l : List Nat) : List Nat := l.foldr insertSorted []
 
-/-- `generatePackage`: `file` is what is left on disk (`none` = derived.gen.go removed) -/
-def loop (gen : GenFn) (calls : List Call) : Nat → Derived → Option (List Nat) → Except String (Option Derived)
-  | 0, _, _ => .error "no fixpoint within the fuel"
-  | fuel + 1, d, prev => do
+/-- `generatePackage`: `file` is what is left on disk (`none` = derived.gen.go removed).
+`passes` counts the passes made (`for passes := 0; generated || passes < 2; passes++`): the first pass
+is followed by a reload also when it generated nothing (F74: it worked on the program as it was loaded
+before this run generated for the imported packages). -/
+def loop (gen : GenFn) (calls : List Call) :
+    Nat → Nat → Derived → Option (List Nat) → Except String (Option Derived)
+  | 0, _, _, _ => .error "no fixpoint within the fuel"
+  | fuel + 1, passes, d, prev => do
     let (out, us) ← pass gen d calls
     let us := sortStrings us
     let file : Option Derived := if out = [] then none else some out   -- Print, or Delete when nothing was printed
     if us = [] then .ok file
     else if prev = some us then (if out = [] then .error "cannot generate" else .ok file)
-    else if out = [] then .error "cannot generate"
-    else loop gen calls fuel out (some us)
+    else if out = [] ∧ 1 ≤ passes then .error "cannot generate"
+    else loop gen calls fuel (passes + 1) out (some us)
 
 /-- one run of goderive on a package whose derived.gen.go the loader sees as `old` -/
 def regen (gen : GenFn) (calls : List Call) (old : Derived) : Except String (Option Derived) :=
-  loop gen calls (calls.length + 2) old none
+  loop gen calls (calls.length + 3) 0 old none
 
 /-- `NoStaleFlow`: on every callee whose result type flows into another derive call, the old file
 declares exactly what `f` declares (same signature, or neither declares it) -/
